@@ -251,6 +251,9 @@ func (g *G) genStruct(c *objCase, o genOpts, depth int) *TD {
 		} else if o.embedded && g.chance(0.2) {
 			// a field holding a zoo struct by value or by pointer: routes may pass through it
 			zs := c.zooStructEntry(20, []string{"r"})
+			if g.chance(0.4) { // two promoted fields behind one embedded struct (or pointer)
+				zs = c.zooStructEntry(21, []string{"s", "n"})
+			}
 			if g.chance(0.5) {
 				ft = &TD{k: "pt", elem: zs, rt: reflect.PtrTo(zs.rt)}
 			} else {
@@ -295,6 +298,19 @@ func (g *G) genStruct(c *objCase, o genOpts, depth int) *TD {
 		}
 		if inner.k == "st" && inner.n == 20 && g.chance(0.7) {
 			ad.flds = append(ad.flds, fldD{name: name, route: []int{i, 0}, t: inner.field[0], omit: g.chance(0.3)})
+			continue
+		}
+		if o.embedded && inner.k == "st" && inner.n == 21 && g.chance(0.7) {
+			for j := range inner.field {
+				if j > 0 {
+					name += "2"
+					for used[name] {
+						name += "_"
+					}
+					used[name] = true
+				}
+				ad.flds = append(ad.flds, fldD{name: name, route: []int{i, j}, t: inner.field[j], omit: g.chance(0.3)})
+			}
 			continue
 		}
 		if g.chance(0.1) && !wide {
